@@ -9,6 +9,8 @@ N4  start() creates one find task unless one is still running; 'found' uses matc
 """
 from __future__ import annotations
 
+import ast
+
 from ..absint import eval_term
 from ..facts import AnalysisError
 from ..terms import const, contains, show, strip_sites, subterms
@@ -233,7 +235,12 @@ def check(run, prog, tier):
         rv = p.retval() if p.returns() else None
         filt = [c for c, _v, _n, _k in p.conds]
         comps = [t_ for t_ in subterms(rv) if t_[0] == "comp"] if rv is not None else []
-        if rv is None or filt or any(g_[2] for t_ in comps for g_ in t_[3]) or not contains(rv, lambda t_: t_ == ("attr", ("self", "sd.TimedStore"), "store")):
+        store_ = ("attr", ("self", "sd.TimedStore"), "store")
+        reads = (rv is not None and contains(rv, lambda t_: t_ == store_)) or any(
+            (e.recv is not None and contains(e.recv, lambda t_: t_ == store_)) or any(contains(a_, lambda t_: t_ == store_) for a_ in (e.args or ()))
+            for e in p.events if e.kind == "call")
+        is_gen = any(isinstance(n_, (ast.Yield, ast.YieldFrom)) for n_ in ast.walk(ent.node))
+        if (rv is None and not is_gen) or filt or any(g_[2] for t_ in comps for g_ in t_[3]) or not reads:
             oke = False
             whye = ("leaves stored entries out (" + (show(filt[0])[:60] if filt else next((show(g_[2][0])[:60] for t_ in comps for g_ in t_[3] if g_[2]), "not built from self.store")) +
                     "): a found service that is dropped here is asked for again in every round")
